@@ -78,6 +78,10 @@ VARIANTS = {
 }
 
 
+if os.environ.get("VERIF_COV"):      # tools/coverage.py: which parts of the implementation the generated behaviours reach
+    VARIANTS["plain"] = ("gcc", "-O0 -g --coverage -std=gnu11 -fsigned-char -fPIC -Wno-abi -w")
+
+
 def build_lib(variant="plain", units=("mir.c", "mir-gen.c"), extra_flags=""):
     """Compile library units from the current /repo working tree with -DMIR_VERIF.
     Returns (dir, [object files], cc, flags). Cached by hash of sources+flags."""
